@@ -2,6 +2,7 @@ package world
 
 import (
 	"fmt"
+	"math/rand"
 	"strings"
 	"sync/atomic"
 	"time"
@@ -128,6 +129,33 @@ func (s *sliceStore) Get(string) ([]*operation.AnchoredOperation, error) {
 	return out, nil
 }
 
+// ViaOption moves a random part of the stored history into the resolution option WithAdditionalOperations, in
+// shuffled order (one published operation stays in the store so that the store knows the suffix).  What a resolution
+// returns must not depend on which way an operation reaches the processor.
+func (h *History) ViaOption(rng *rand.Rand) int {
+	moved := 0
+	var keepP, keepU []Placed
+	for i, p := range h.Pub {
+		if i > 0 && rng.Intn(2) == 0 {
+			h.Additional = append(h.Additional, p)
+			moved++
+		} else {
+			keepP = append(keepP, p)
+		}
+	}
+	for _, p := range h.Unpub {
+		if rng.Intn(2) == 0 {
+			h.Additional = append(h.Additional, p)
+			moved++
+		} else {
+			keepU = append(keepU, p)
+		}
+	}
+	h.Pub, h.Unpub = keepP, keepU
+	rng.Shuffle(len(h.Additional), func(i, j int) { h.Additional[i], h.Additional[j] = h.Additional[j], h.Additional[i] })
+	return moved
+}
+
 // VersionTimeText renders the version time as RFC 3339, in UTC or with the configured zone offset.
 func (h *History) VersionTimeText() string {
 	t := time.Unix(*h.VersionTime, 0).UTC()
@@ -230,12 +258,18 @@ func (h *History) run(pc protocol.Client, tb *Table, oidOf func(*operation.Ancho
 	}
 	proc := processor.New("verif", &sliceStore{ops: h.Pub}, pc, popts...)
 	var ropts []document.ResolutionOption
+	var addOpt document.ResolutionOption
 	if len(h.Additional) > 0 {
 		var add []*operation.AnchoredOperation
 		for _, p := range h.Additional {
 			add = append(add, p.Anchored())
 		}
-		ropts = append(ropts, document.WithAdditionalOperations(add))
+		addOpt = document.WithAdditionalOperations(add)
+	}
+	// options are independent of each other: the additional operations come first or last in the option list
+	addFirst := (len(h.Pub)+len(h.Unpub)+len(h.Additional))%2 == 0
+	if addOpt != nil && addFirst {
+		ropts = append(ropts, addOpt)
 	}
 	if h.VersionIDRaw != "" {
 		ropts = append(ropts, document.WithVersionID(h.VersionIDRaw))
@@ -245,9 +279,14 @@ func (h *History) run(pc protocol.Client, tb *Table, oidOf func(*operation.Ancho
 	if h.VersionTime != nil {
 		ropts = append(ropts, document.WithVersionTime(h.VersionTimeText()))
 	}
+	if addOpt != nil && !addFirst {
+		ropts = append(ropts, addOpt)
+	}
 	suffix := "unknown"
 	if len(h.Pub) > 0 {
 		suffix = h.Pub[0].Op.UniqueSuffix
+	} else if len(h.Unpub) > 0 {
+		suffix = h.Unpub[0].Op.UniqueSuffix
 	}
 	rm, err := proc.Resolve(suffix, ropts...)
 	if err != nil {
